@@ -176,7 +176,13 @@ func Code(err error) string {
 	case codes.NotFound:
 		return "not-found"
 	case codes.Internal:
-		return "err internal"
+		// "The block to which this blob was written, has already been released" is the store's
+		// by-design answer to a rotation overtaking a slow write; everything else that is INTERNAL
+		// is a data integrity error.
+		if strings.Contains(err.Error(), "already been released") || strings.Contains(err.Error(), "disappeared while buffer was read") {
+			return "err internal"
+		}
+		return "err integrity"
 	case codes.Unavailable:
 		return "err unavailable"
 	case codes.InvalidArgument:
